@@ -114,6 +114,8 @@ class Interp:
                 s.regions.pop(rn, None)
                 s.tags.pop(('default', rn), None)
                 s.tags.pop(('havoc', rn), None)
+            for tk in [t for t in s.tags if isinstance(t, tuple) and t and t[0] in ('loophead', 'fw') and t[1] == fn.name]:
+                del s.tags[tk]
             if isinstance(rv, Ptr) and rv.region.startswith(prefix):
                 rv = Top('ptr', 'dangling pointer to local of %s' % fn.name)
             # the caller's frame object is shared by all exit disjuncts: give each its own copy
@@ -440,6 +442,7 @@ class Interp:
                     outs = {}
                     hc = h.copy()
                     hc.tags[('loophead', fn.name, head)] = self.snapshot_places(hc, fn, lp)
+                    hc.tags.pop(('fw', fn.name, head), None)
                     self.process(fn, fi, body_order, {head: [hc]}, rets, (lp, backs, outs))
                     for b in backs:
                         self.hooks.at_backedge(b, fn, head)
@@ -494,6 +497,12 @@ class Interp:
                                               'backs': allbacks, 'head_states': heads})
                 return outs
             heads = self.group_and_join(fn, lp, heads + uncovered, 'widen', widen=True, prev=heads)
+            if os.environ.get('ABSINT_KEYDBG') and rounds >= 6:
+                u = uncovered[0]
+                ku = self.group_key(u, fn, lp)
+                for h in heads:
+                    kh = self.group_key(h, fn, lp)
+                    print('   [keydbg] u-h:', [x for x in ku if x not in kh][:6], ' h-u:', [x for x in kh if x not in ku][:6])
             if os.environ.get('ABSINT_DBG') and rounds >= 8:
                 for u in uncovered[:2]:
                     ku = self.group_key(u, fn, lp)
@@ -630,6 +639,7 @@ class Interp:
                 key.append((n, v.region))
             else:
                 key.append((n, v.key()))
+        snaps = [(tk, tv) for tk, tv in st.tags.items() if isinstance(tk, tuple) and tk and tk[0] == 'loophead']
         for rname in sorted(st.mem):
             r = st.regions.get(rname)
             islocal = rname.startswith('L')
@@ -644,6 +654,13 @@ class Interp:
                         c = S.const_of(v.a)
                         lo, hi = S.bounds(v.a)
                         key.append((rname, k, 0 if hi == 0 else ('+' if lo > 0 else '?')))
+                        # unchanged since the enclosing loop heads? (keeps "made no progress yet" apart from "progressed")
+                        for sk, snap in snaps:
+                            if sk[1] == fn.name and lp is not None and sk[2] == lp['head']:
+                                continue
+                            hv = snap.get((rname, k))
+                            if isinstance(hv, Int) and v.w >= 32:
+                                key.append((rname, k, sk[1], hv.a == v.a))
                 elif isinstance(v, Ptr):
                     key.append((rname, k, v.region))
                 elif isinstance(v, (Null, Fn, Zero)):
@@ -745,6 +762,13 @@ class Interp:
             H.owned.add(rname)
             if dropped:
                 H.tags[('havoc', rname)] = 'all'
+        def _fwkey(t):
+            return tuple(t or ())
+        for tk in [t for t in base.tags if isinstance(t, tuple) and t and t[0] == 'fw']:
+            for s in states[1:]:
+                if _fwkey(s.tags.get(tk)) != _fwkey(base.tags.get(tk)):
+                    H.tags.pop(tk, None)
+                    break
         # tags: default must agree, havoc is or-ed
         for s in states[1:]:
             for tk, tv in s.tags.items():
@@ -792,6 +816,10 @@ class Interp:
                     keep[k] = v
             setattr(H, tab, keep)
         H.kb = {k: v for k, v in H.kb.items() if k in newivl}
+        for k_, v_ in getattr(self, '_newkb', {}).items():
+            if k_ in newivl:
+                H.kb[k_] = v_
+        self._newkb = {}
         H.andmemo = {k: v for k, v in H.andmemo.items() if k[0] in newivl and v in newivl}
         H.bufmemo = {k: v for k, v in H.bufmemo.items() if v in newivl}
         ctrl = base.ctrl
@@ -805,6 +833,7 @@ class Interp:
                 if d[0] == 'P' and d[1][0][0] in (1, 48):
                     print('   [place] %r %s houdini=%s: %r' % (d, hs, bool(widen and base.tags.get('_places')), [sg[hs] for sg in sig][:12]))
         houdini = bool(widen and base.tags.get('_places'))
+        self._cur_loop = (fn.name, lp['head']) if lp is not None else None
         cands = self.candidates(H, states, sig, places, common, houdini)
         kept = 0
         good = {}
@@ -905,6 +934,22 @@ class Interp:
             lo = max(lo, 0)
             hi = min(hi, mask(w))
             hs = H.fresh('head:%s' % (descr[1] if descr[0] == 'env' else 'cell'), w, lo, hi)
+            # known bits of the join: bits that are 0 (resp. 1) in every joined value
+            if w <= 16:
+                zeros = ones = mask(w)
+                for s, v in zip(states, vals):
+                    c = s.store.const_of(v.a)
+                    if c is not None:
+                        z_, o_ = (~c) & mask(w), c
+                    else:
+                        sg = v.a.single()
+                        z_, o_ = s.kb.get(sg[0], (0, 0)) if sg and sg[1] == 1 and v.a.c == 0 else (0, 0)
+                    zeros &= z_
+                    ones &= o_
+                if zeros or ones:
+                    H.kb[hs] = (zeros, ones)
+                    self._newkb = getattr(self, '_newkb', {})
+                    self._newkb[hs] = (zeros, ones)
             for i, v in enumerate(vals):
                 sig[i][hs] = v.a
             places.append((descr, hs, w))
@@ -1040,6 +1085,45 @@ class Interp:
                         e = Aff.sym(x, a2).sub(Aff.sym(y, a1)).sub(a2 * c1 - a1 * c2)
                         add(e)
                         add(e.neg())
+        # (vi) a place that is `y + something` in every state, y a common symbol: keep the range of that something
+        for x in hsyms:
+            a0 = sig[0][x]
+            for y, ky in a0.t.items():
+                if ky != 1 or y not in common:
+                    continue
+                lo_k = hi_k = None
+                ok = True
+                for i, s in enumerate(states):
+                    ai = sig[i][x]
+                    if ai.t.get(y) != 1:
+                        ok = False
+                        break
+                    d = ai.sub(Aff.sym(y))
+                    if not all(z in s.store.ivl for z in d.t):
+                        ok = False
+                        break
+                    a_, b_ = s.store.bounds(d)
+                    lo_k = a_ if lo_k is None or a_ < lo_k else lo_k
+                    hi_k = b_ if hi_k is None or b_ > hi_k else hi_k
+                if ok:
+                    add(Aff.sym(x).sub(Aff.sym(y)).sub(lo_k))
+                    if hi_k < (1 << 62):
+                        add(Aff.sym(y).sub(Aff.sym(x)).add(hi_k))
+        # (vii) progress relative to the values recorded at the enclosing loop heads (needed by ranking arguments)
+        anchors = {}
+        for tk, snap in states[0].tags.items():
+            if isinstance(tk, tuple) and tk and tk[0] == 'loophead' and (tk[1], tk[2]) != getattr(self, '_cur_loop', None):
+                for k_, v_ in snap.items():
+                    if isinstance(v_, Int):
+                        sg = v_.a.single()
+                        if sg and sg[1] == 1 and v_.a.c == 0 and sg[0] in common and sg[0] not in hset:
+                            anchors[sg[0]] = v_.w
+        for (d, x, w) in places:
+            for y, w2 in anchors.items():
+                if w == w2:
+                    add(Aff.sym(x).sub(Aff.sym(y)).sub(1))
+                    add(Aff.sym(x).sub(Aff.sym(y)))
+                    add(Aff.sym(y).sub(Aff.sym(x)))
         # (v) a place whose value in the first state is an expression over common symbols may have
         #     that same value everywhere (syntactically different, semantically equal)
         for x in hsyms:
@@ -1196,9 +1280,21 @@ class Interp:
             if not SS.entails_ge0(ei):
                 return self._why(16, locals())
         for sym, (z, o) in H.kb.items():
-            z2, o2 = s.kb.get(sym, (0, 0))
+            if sym in sigma:
+                ex = sigma[sym]
+                c = SS.const_of(ex)
+                if c is not None:
+                    z2, o2 = ~c, c
+                else:
+                    sg = ex.single()
+                    z2, o2 = s.kb.get(sg[0], (0, 0)) if sg and sg[1] == 1 and ex.c == 0 else (0, 0)
+            else:
+                if sym in SS.ivl and SS.ivl[sym][0] == SS.ivl[sym][1]:
+                    z2, o2 = ~SS.ivl[sym][0], SS.ivl[sym][0]
+                else:
+                    z2, o2 = s.kb.get(sym, (0, 0))
             if (z & ~z2) or (o & ~o2):
-                return self._why(17, locals())
+                return self._why(19, locals())
         return True
 
     def _why(self, n, loc):
